@@ -656,10 +656,14 @@ def main(tier='quick', seed=0, repo=None):
         cov = {
             'evaluations': evaluations,
             'distinct_nontrivial': len(stats.sigs),
-            'rule': 'an evaluation is one simulated run (S1: 2-4 baton-scheduled client threads; S2: one client, 10-40 call history) or one S3 '
-                    'fresh interpreter over a permuted corpus slice. A run is non-trivial if at least one context switch, injected fault or '
-                    'injected gc actually happened; distinct = distinct SHA-256 of the sequence of (client, file, line) at switch points plus '
-                    'the fired faults. S3 interpreters are not counted as distinct_nontrivial.',
+            'rule': 'an evaluation is one simulated run or one S3 interpreter. Simulated runs: S1 = 2-4 baton-scheduled client threads running 2-8 ops each '
+                    '(random stream: Bernoulli / PCT-like / round-robin / focus strategies; focus sweep: dense pre-emption inside one contended function, '
+                    'line-level, bytecode-level, and with a fault inside it; state-directed runs: dense pre-emption in the functions that write state which '
+                    'outlives a call); S2 = one client: a short fully instrumented history (10-40 ops), a long one (120-250 ops) or one history per corpus '
+                    'family (all its ops, shuffled, twice). S3 = a fresh interpreter under another PYTHONHASHSEED running a permuted corpus slice (full) '
+                    'or only the mindsdb-dialect texts of the grammar-sensitive families (grammar-only). A run is non-trivial if at least one context '
+                    'switch, injected fault or injected gc actually happened; distinct = distinct SHA-256 of the sequence of (client, file, line) at switch '
+                    'points plus the fired faults. S3 interpreters and un-instrumented histories are not counted as distinct_nontrivial.',
             'samples': stats.samples or [{'note': 'no S1 run with a switch completed'}],
             'runs': dict(stats.runs), 's3_interpreters': s3_runs, 's3_ops_executed': s3_ops, 's3_hashseeds': s3_seeds,
             'nontrivial_runs': stats.nontrivial,
